@@ -14,7 +14,8 @@ for name in sorted(os.listdir(sd)):
     mf = os.path.join(d, "meta.json")
     meta = json.load(open(mf)) if os.path.exists(mf) else {}
     pid = meta.get("property") or name.split("-")[0]
-    if not want or any(name.startswith(w) for w in want):
+    # an argument names one seed (C01-7) or, without a number, every seed of a property (C01)
+    if not want or any(name == w or ("-" not in w and name.startswith(w + "-")) for w in want):
         ids = [pid] + [x for x in meta.get("also_checked_by", []) if x != pid]
         p = subprocess.run([sys.executable, os.path.join(ROOT, "tools", "seedtest.py"), "--keep-replay", d, pf, ",".join(ids)], capture_output=True, text=True)
         res = {}
